@@ -694,6 +694,39 @@ theorem C10_offsets_u16 (rd : ResourceDef) (st : PathState)
     rw [C10_long_path_refused rd st (by omega) hdyn]
     exact ⟨by simp, by intro st' h; cases h⟩
 
+/-- **C10_chain_never_panics**: any sequence of capture steps on one `Path` (scope prefixes, then
+resources, …) runs without a `u16` overflow or truncation provided the path is within the 64 KiB
+limit — or, for paths of *any* length, provided no step is a static pattern.  The guard of the
+dynamic arms must therefore look at the **full** path: after a prefix has been consumed the
+unprocessed rest may be short again while absolute offsets still exceed `u16::MAX` (this is what
+the seeded change C10-2 broke; corpus `k 2f+*999:73+2f782f+*64997:74 …`). -/
+theorem C10_chain_never_panics (rds : List ResourceDef) (st : PathState)
+    (hlen : blen st.path < 65536 ∨ ∀ rd ∈ rds, ∀ p, rd.patType ≠ .static p)
+    (hskip : st.skip ≤ blen st.path) :
+    ∃ st', stepAll rds st = some st' ∧ st'.path = st.path ∧ st'.skip ≤ blen st'.path := by
+  induction rds generalizing st with
+  | nil => exact ⟨st, rfl, rfl, hskip⟩
+  | cons rd rest ih =>
+    have h1 : blen st.path < 65536 ∨ ∀ p, rd.patType ≠ .static p := by
+      rcases hlen with h | h
+      · exact Or.inl h
+      · exact Or.inr (h rd (by simp))
+    have hrest : ∀ st2 : PathState, st2.path = st.path →
+        (blen st2.path < 65536 ∨ ∀ rd ∈ rest, ∀ p, rd.patType ≠ .static p) := by
+      intro st2 hp
+      rcases hlen with h | h
+      · exact Or.inl (by rw [hp]; exact h)
+      · exact Or.inr (fun rd hrd => h rd (List.mem_cons_of_mem _ hrd))
+    obtain ⟨hnp, hm⟩ := C10_offsets_u16 rd st h1 hskip
+    simp only [stepAll]
+    cases hc : rd.captureMatchInfo st with
+    | panic => exact absurd hc hnp
+    | noMatch => exact ih st (hrest st rfl) hskip
+    | matched st2 =>
+      obtain ⟨hp, hs, _⟩ := hm st2 hc
+      obtain ⟨st', h1', h2', h3'⟩ := ih st2 (hrest st2 hp) hs
+      exact ⟨st', h1', by rw [h2', hp], h3'⟩
+
 /-- **C10_parse_wf**: every definition that `ResourceDef::new/prefix` builds (model of `parse` /
 `construct`) has pairwise distinct group names — the side condition of `C10_sound`. -/
 theorem C10_parse_wf (isPrefix : Bool) (pats : Patterns) (rd : ResourceDef)
